@@ -1203,6 +1203,7 @@ type Enum struct {
 	desc       string
 	ref        string
 	val        int
+	valSet     bool // a value statement was given, 0 included
 	ifs        []*IfFeature
 	extensions []*Extension
 }
